@@ -169,11 +169,21 @@ def split(rng, data, nfiles, tref):
                 rng.random() < 0.3:
             p['range'] = [tref - rng.choice([0.0, 20.0]),
                           tref + rng.choice([0.0, 100.0])]
+    # a file may also give nothing but the range of a group
+    r2 = random.Random('c13range:%r' % ((sorted(data['Cp'].items()), nfiles),))
+    for p in pieces:
+        if not has_data(p) and r2.random() < 0.4:
+            p['range'] = [tref - r2.choice([0.0, 20.0, 150.0]),
+                          tref + r2.choice([0.0, 100.0, 900.0])]
     return pieces
 
 
 def has_data(p):
     return p['H'] is not None or p['S'] is not None or bool(p['Cp'])
+
+
+def has_any(p):
+    return has_data(p) or p['range'] is not None
 
 
 def piece_to_abstract(p, tref):
@@ -202,7 +212,7 @@ def write_tree(tree, groups_pieces, structure, tref, top_piece=None,
     for f in range(nfiles):
         groups = {}
         for g, pieces in groups_pieces.items():
-            if has_data(pieces[f]):
+            if has_any(pieces[f]):
                 groups[g] = piece_to_abstract(pieces[f], tref)
         inc = ['p%d.yaml' % c for c in structure.get(f, [])]
         text = libfiles.render_library(groups, include=inc,
@@ -275,7 +285,9 @@ def check_split(ctx, case):
         try:
             for p in ([top_piece[g]] if top_piece and g in top_piece
                       else []) + pieces:
-                if has_data(p):
+                if has_any(p):
+                    if not has_data(p):
+                        ctx.count('range_only_pieces')
                     st = ref_merge(st, p)
             want[g] = st
         except Conflict:
@@ -317,7 +329,7 @@ def check_split(ctx, case):
                 return
             lib = o['ok']
             for g, st in want.items():
-                if not any(has_data(x) for x in gp[g]) and not (
+                if not any(has_any(x) for x in gp[g]) and not (
                         top_piece and g in top_piece):
                     continue
                 ent = lib[g]
@@ -344,7 +356,7 @@ def check_split(ctx, case):
         ctx.klass('%d files, %d orders x nestings%s' % (
             nfiles, n_loaded, ', conflict' if conflict else ''))
         ctx.sample({'key': case['key'], 'files': nfiles, 'T_ref': tref,
-                    'pieces': {g: [p for p in ps if has_data(p)]
+                    'pieces': {g: [p for p in ps if has_any(p)]
                                for g, ps in gp.items()},
                     'orders_x_nestings': n_loaded,
                     'conflict': case.get('conflict_kind')})
